@@ -4,10 +4,14 @@
    binding level (machine / reactor); the disjuncts below are one successor per call
    kind, with aimed variants for the calls that only matter with the right argument. *)
 EXTENDS ChannelMachine, Json, TLC
-CONSTANT Depth
+CONSTANTS Depth, Salt
 VARIABLE hist
 
-SimInit == Init /\ hist = << [ev |-> ev, st |-> Proj] >>
+\* TLC draws the initial state of a run uniformly; the machine and reactor levels have one initial
+\* state each, the follower level one per configuration, so the former are given Salt copies.
+SimInit == /\ Init
+           /\ \E k \in 1..Salt : /\ (cfg.level = "follower" => k = 1)
+                                 /\ hist = << [ev |-> ev, st |-> Proj, salt |-> k] >>
 Pick(S) == {RandomElement(S)}
 PickOr(S, d) == IF S = {} THEN {d} ELSE {RandomElement(S)}
 Coin(n) == RandomElement(1..n) = 1
@@ -107,7 +111,9 @@ SimAppend ==
 Ref == IF fx.phase = "loaded" THEN [epoch |-> m.epoch, lepoch |-> m.lepoch, leader |-> m.leader]
        ELSE IF fx.phase = "loading" THEN [epoch |-> fx.lmeta.epoch, lepoch |-> fx.lmeta.lepoch, leader |-> fx.lmeta.leader]
        ELSE [epoch |-> 1, lepoch |-> 0, leader |-> 0]
-FNext == {<<Ref.epoch, Ref.lepoch + 1>>, <<Ref.epoch, Ref.lepoch + 1>>, <<Ref.epoch + 1, 1>>}
+FNext == IF fx.phase = "absent" THEN {<<1, 1>>, <<1, 2>>, <<2, 1>>, <<2, 2>>}
+         ELSE {<<Ref.epoch, Ref.lepoch + 1>>, <<Ref.epoch + 1, 1>>, <<Ref.epoch + 1, 2>>}
+FOlder == {f \in (1..Ref.epoch) \X (1..3) : f[1] < Ref.epoch \/ f[2] < Ref.lepoch}
 FQuorums(ld) == {q \in Quorums : ld \in q[1]}
 FMk(e, le, ld, q, rg) == WithRG(Mk(e, le, ld, {1, 2, 3}, q, "active"), rg)
 Others == Leaders \ {Loc}
@@ -129,9 +135,9 @@ SimFMeta ==
   \* same fence, another leader (must be refused, also while the store load is in flight)
   \/ \E ld \in Pick(Leaders \ {Ref.leader}), rg \in Pick(RGens) : \E q \in Pick(FQuorums(ld)) :
         Ref.leader # 0 /\ (fx.phase = "loading" \/ Coin(3)) /\ FMeta(FMk(Ref.epoch, Ref.lepoch, ld, q, rg))
-  \* an older fence
-  \/ \E ld \in Pick(Leaders), rg \in Pick(RGens) : \E q \in Pick(FQuorums(ld)) :
-        Ref.lepoch > 1 /\ Coin(3) /\ FMeta(FMk(Ref.epoch, Ref.lepoch - 1, ld, q, rg))
+  \* an older fence (also while the store load is in flight)
+  \/ \E f \in PickOr(FOlder, <<0, 0>>), ld \in Pick(Leaders), rg \in Pick(RGens) : \E q \in Pick(FQuorums(ld)) :
+        FOlder # {} /\ (fx.phase = "loading" \/ Coin(3)) /\ FMeta(FMk(f[1], f[2], ld, q, rg))
 
 \* answers of a leader that keep the follower's watermarks in order (see EnvHW)
 Answers == {t \in (0..2) \X (0..MaxOff) \X (0..MaxOff) :
